@@ -916,3 +916,23 @@ def unbound_after_handler(fn):
                 if later and isinstance(later[0].ctx, ast.Load):
                     out.append((tr, name, later[0]))
     return out
+
+
+
+def shape_index_beyond_validated_rank(fn):
+    """[(subscript node, name, rank)]: after 'if X.ndim != r: raise' every X that is let through has exactly r axes; X.shape[k] with
+    k >= r (or k < -r) then raises IndexError for every valid input."""
+    out = []
+    rank = {}
+    for st in ast.walk(fn):
+        if isinstance(st, ast.If) and len(st.body) == 1 and isinstance(st.body[0], ast.Raise) and not st.orelse and isinstance(st.test, ast.Compare) \
+                and len(st.test.ops) == 1 and isinstance(st.test.ops[0], ast.NotEq) and isinstance(st.test.left, ast.Attribute) \
+                and st.test.left.attr == 'ndim' and isinstance(st.test.comparators[0], ast.Constant) and isinstance(st.test.comparators[0].value, int):
+            rank.setdefault(norm(st.test.left.value), (st.test.comparators[0].value, st.lineno))
+    for n in ast.walk(fn):
+        if isinstance(n, ast.Subscript) and isinstance(n.value, ast.Attribute) and n.value.attr == 'shape' and isinstance(n.slice, ast.Constant) \
+                and isinstance(n.slice.value, int) and norm(n.value.value) in rank:
+            r, line = rank[norm(n.value.value)]
+            if n.lineno > line and (n.slice.value >= r or n.slice.value < -r):
+                out.append((n, norm(n.value.value), r))
+    return out
